@@ -98,6 +98,7 @@ partial def pType (cs : List Char) : Except String (HType × List Char) :=
   | "Array", '[' :: r => do let (t, r) ← pType r; match r with | ']' :: r => pure (.array t, r) | _ => throw "type: ]"
   | "Stream", '[' :: r => do let (t, r) ← pType r; match r with | ']' :: r => pure (.stream t, r) | _ => throw "type: ]"
   | "Set", '[' :: r => do let (t, r) ← pType r; match r with | ']' :: r => pure (.set t, r) | _ => throw "type: ]"
+  | "Interval", '[' :: r => do let (t, r) ← pType r; match r with | ']' :: r => pure (.interval t, r) | _ => throw "type: ]"
   | "Dict", '[' :: r => do
     let (k, r) ← pType r
     match r with
@@ -137,6 +138,7 @@ partial def showType : HType → String
   | .stream t => s!"Stream[{showType t}]"
   | .set t => s!"Set[{showType t}]"
   | .dict k v => s!"Dict[{showType k},{showType v}]"
+  | .interval t => s!"Interval[{showType t}]"
   | .struct fs => "Struct{" ++ ",".intercalate (showFields fs) ++ "}"
   | .tuple ts => "Tuple[" ++ ",".intercalate (showTypes ts) ++ "]"
 partial def showFields : Fields → List String
